@@ -131,7 +131,7 @@ func genVT(t *rapid.T, n int, p genProfile) VT {
 func genOp(t *rapid.T, cfg simCfg, p genProfile, depth int) Op {
 	kinds := make([]string, 0, len(p.w))
 	weights := make([]int, 0, len(p.w))
-	for _, k := range []string{"ph", "vote", "round", "replay", "sment", "smact", "stall", "read", "conc", "restart", "time"} {
+	for _, k := range []string{"ph", "vote", "round", "replay", "sment", "smact", "stall", "read", "conc", "restart", "time", "fetch"} {
 		if w := p.w[k]; w > 0 && !(depth > 0 && k != "ph" && k != "vote") {
 			kinds = append(kinds, k)
 			weights = append(weights, w)
@@ -227,6 +227,8 @@ func genOp(t *rapid.T, cfg simCfg, p genProfile, depth int) Op {
 			}
 			op.Sub = append(op.Sub, sub)
 		}
+	case "fetch":
+		op.D = rapid.IntRange(0, 3).Draw(t, "fetchidx")
 	case "time":
 		op.N = rapid.IntRange(1, 50).Draw(t, "ticks")
 	}
